@@ -196,3 +196,18 @@ Definition hvcrec_of (h : hvcc) : option hvcrec :=
       Some (mkHvcRec 1 space (negb (tier =? 0)) idc compat constr level 0 0 chroma bdl bdc 0 0 0 0 3 (hc_arrays h))
   | _ => None
   end.
+
+(* ------------------------------------------------------------------ records whose values fit their fields
+   (the hypotheses of the round-trip theorems, as decision procedures) *)
+Definition nalu_ok (n : str) : bool := lenN n <? 65536.
+Definition avcrec_ok (r : avcrec) : bool :=
+  (lenN (ar_sps r) <? 32) && (lenN (ar_pps r) <? 256)
+  && forallb nalu_ok (ar_sps r) && forallb nalu_ok (ar_pps r)
+  && (ar_chroma r <? 4) && (ar_bdl r <? 8) && (ar_bdc r <? 8) && (ar_nspsext r =? 0).
+Definition array_ok (a : N * list str) : bool := (lenN (snd a) <? 65536) && forallb nalu_ok (snd a).
+Definition hvcrec_ok (r : hvcrec) : bool :=
+  (hr_version r =? 1) && (hr_space r <? 4) && (hr_pidc r <? 32)
+  && (hr_compat r <? 4294967296) && (hr_constraint r <? 281474976710656)
+  && (hr_minspat r <? 4096) && (hr_par r <? 4) && (hr_chroma r <? 4) && (hr_bdl r <? 8) && (hr_bdc r <? 8)
+  && (hr_avgfr r <? 65536) && (hr_cfr r <? 4) && (hr_ntl r <? 8) && (hr_tin r <? 2) && (hr_lsm1 r =? 3)
+  && (lenN (hr_arrays r) <? 256) && forallb array_ok (hr_arrays r).
